@@ -33,6 +33,7 @@ impl Stream for ScriptStream {
         } else {
             let mut c = ctx.pipes[p].input.lock().unwrap();
             c.polls += 1;
+            if ctx.prog.pipes[p].register_first { c.waker = Some(cx.waker().clone()); }
             if let Some(op) = c.q.pop_front() { Poll::Ready(Some(op)) }
             else if c.closed { Poll::Ready(None) }
             else { c.waker = Some(cx.waker().clone()); c.pending_polls += 1; Poll::Pending }
